@@ -1429,3 +1429,62 @@ def try_body_scope(F):
         if not eo or not all(o[0] == 'param' and o[1] == 'env' for o in eo):
             return False, 'the try body is evaluated in %s' % sorted(str(o[:2]) for o in eo), c.loc()
     return True, 'try body in the enclosing environment, catch clause in a child scope', body_ev[0].loc()
+
+
+_FAMILY_CACHE = {}
+
+
+def family_bodies(F, fn, depth=3):
+    """the function together with what a maintainer may have split off from it: its closures and nested fns, and the crate
+    functions it calls that are called from nowhere else (private helpers of this function), transitively up to `depth`.
+    Rules that ask "does this function (somewhere) do X" use the family so that extracting a helper does not change the answer."""
+    key = (id(F), fn, depth)
+    if key in _FAMILY_CACHE:
+        return _FAMILY_CACHE[key]
+    if not hasattr(F, '_rev_calls'):
+        rev = {}
+        for b in F.all_bodies():
+            owner = b.path
+            for c in b.calls:
+                if c.target in F.bodies_raw:
+                    rev.setdefault(c.target, set()).add(owner)
+        F._rev_calls = rev
+
+    def root(p):
+        while p in F.closure_parent:
+            p = F.closure_parent[p]
+        return p
+    fam = []
+    seen = set()
+    work = [(fn, 0)]
+    r0 = root(fn)
+    member_roots = {r0}
+    while work:
+        p, d = work.pop()
+        if p in seen or not F.has_fn(p):
+            continue
+        seen.add(p)
+        b = F.body(p)
+        fam.append(b)
+        for cl in F.closures_of(p):
+            work.append((cl, d))
+        # nested fn items
+        for q in F.bodies_raw:
+            if q.startswith(p + '::') and '::promoted' not in q and q not in seen and q.count('::') == p.count('::') + 1 and '{closure' not in q.rsplit('::', 1)[-1]:
+                work.append((q, d))
+        if d >= depth:
+            continue
+        for c in b.calls:
+            t = c.target
+            if t in seen or t not in F.bodies_raw or t == fn:
+                continue
+            callers = {root(x) for x in F._rev_calls.get(t, ())}
+            if callers and callers <= member_roots | {root(t)}:
+                member_roots.add(root(t))
+                work.append((t, d + 1))
+    _FAMILY_CACHE[key] = fam
+    return fam
+
+
+def family_calls(F, fn, depth=3):
+    return [c for b in family_bodies(F, fn, depth) for c in b.calls]
